@@ -37,7 +37,7 @@ fn history_desc(specs: &Specs, ops: &[Op]) -> Value {
 
 pub fn run_c01(a: &Args) {
     let specs_all = Specs::all();
-    let per_spec: u64 = if a.thorough { 2500 } else { 400 };
+    let per_spec: u64 = if a.thorough { 8000 } else { 400 };
     let maxlen = if a.thorough { 40 } else { 20 };
     let mon = Monitors { prop: "C01", mutation_semantics: true, queries: false, traversal: false, counts: false, every_op: false };
     let total = specs_all.len() as u64 * per_spec;
@@ -119,7 +119,7 @@ fn constructor_case(specs: &Specs, ops: &[Op], prop: &'static str) {
 
 pub fn run_c02(a: &Args) {
     let specs_all = Specs::all();
-    let per_spec: u64 = if a.thorough { 400 } else { 80 };
+    let per_spec: u64 = if a.thorough { 4000 } else { 80 };
     let maxlen = if a.thorough { 30 } else { 16 };
     let mon = Monitors { prop: "C02", mutation_semantics: false, queries: true, traversal: false, counts: false, every_op: false };
     let total = specs_all.len() as u64 * per_spec;
@@ -880,7 +880,7 @@ fn derived_checks(lock: &Lock, names: &[String], rng: &mut Rng, thorough: bool) 
 
 pub fn run_c15(a: &Args) {
     let specs_all = Specs::all();
-    let per_spec: u64 = if a.thorough { 150 } else { 30 };
+    let per_spec: u64 = if a.thorough { 1000 } else { 30 };
     let maxlen = if a.thorough { 24 } else { 14 };
     let mon = Monitors { prop: "C15", mutation_semantics: false, queries: false, traversal: false, counts: false, every_op: false };
     let total = specs_all.len() as u64 * per_spec;
